@@ -13,7 +13,7 @@ exact comparison operators read from the source.
 """
 from pyvc.api import (proof, bounded, load, model, blank, fresh_int,
                       fresh_real, fresh_bool, fresh_str, pick, assume, check,
-                      implies, conj, disj, neg, ite, same, rng)
+                      implies, conj, disj, neg, ite, same, rng, unmodelled)
 
 TU = 'oslo_utils/timeutils.py'
 FX = 'oslo_utils/fixture.py'
@@ -52,6 +52,9 @@ class TD:
 
 class DT:
     """datetime: local microseconds + utc offset (None when naive)."""
+    # utcnow() tells a list of override times from a single datetime by the
+    # AttributeError of .pop
+    __absent__ = ('pop',)
 
     def __init__(self, us, off=None):
         self.us = us
@@ -70,6 +73,8 @@ class DT:
     def __sub__(self, other):
         if isinstance(other, TD):
             return DT(self.us - other.us, self.off)
+        if not isinstance(other, DT):
+            unmodelled('datetime - %r' % (other,))
         if (self.off is None) != (other.off is None):
             raise TypeError("can't subtract offset-naive and offset-aware "
                             "datetimes")
@@ -78,9 +83,13 @@ class DT:
         return TD((self.us - self.off) - (other.us - other.off))
 
     def __add__(self, other):
+        if not isinstance(other, TD):
+            unmodelled('datetime + %r' % (other,))
         return DT(self.us + other.us, self.off)
 
     def _instant(self, other):
+        if not isinstance(other, DT):
+            unmodelled('datetime compared with %r' % (other,))
         if (self.off is None) != (other.off is None):
             raise TypeError("can't compare offset-naive and offset-aware "
                             "datetimes")
@@ -261,6 +270,7 @@ def parse_isotime_exception_flow():
 
 class FieldDT:
     """datetime by fields (for marshalling)."""
+    __absent__ = ('pop',)
 
     def __init__(self, year=None, month=None, day=None, hour=0, minute=0,
                  second=0, microsecond=0, tzinfo=None):
